@@ -275,6 +275,7 @@ prop('C11', [
     domain.r_rebuild,
     handles.r_wrap_target,
     misc.r_args,
+    models.r_copy,
 ],
     'sign and roles in dd.bdd._copy_bdd and dd._copy._copy_bdd; rebuild '
     'through ite on the target variable.',
@@ -470,7 +471,10 @@ MODEL_TEXT = {
            'reachability; `count` and `pick_iter` against truth tables '
            '(702 calls on three managers).',
     'C11': ' Models: `copy_vars` leaves the two managers agreeing or '
-           'refuses.',
+           'refuses; `BDD.copy`, `dd.bdd.copy_bdd`, `dd._copy.copy_bdd` '
+           'and `copy_bdds_from` (handles, one memo for several roots) '
+           'into targets with another order, a further variable and '
+           'nodes of their own, against truth tables by variable name.',
     'C12': ' Models: `_dump_bdd` then `load` on what it wrote (fresh '
            'manager, other variable order with levels=False, same '
            'manager); `BDD(levels)` for level tables listed in another '
